@@ -191,6 +191,10 @@ def run_C16(w):
     rng = random.Random(w.seed * 17 + w.shard)
     inputs = []
     progs = list(PROGRAMS)
+    # programs whose text must reach the compiler untouched: whitespace-only lines, indentation and tabs inside string
+    # literals, trailing blanks, blank lines before the first statement (seeded change C16-r3)
+    progs += ["s = '''usage:\n    \n  tool\n\t\nend'''\n", "def f():\n    '''doc\n    \n      indented\n    '''\n    return 1\n",
+              "\n\nx = 1   \n\n\ny = '  '\nz = '''\n \n'''\n", "class C:\n    ''' \n\t\n '''\n    a = '''\n        \n'''\n"]
     for _, s in corpus.generated_sources(w.seed, 6 if w.tier != 'thorough' else 60):
         if len(s) < 3000 and '\\' not in s:
             progs.append(s)
